@@ -304,8 +304,22 @@ func marshalTL(v reflect.Value) ([]byte, error) {
 func harnesses(r *fw.Run) []fw.HarnessSpec {
 	seed := int(r.Seed)
 	var hs []fw.HarnessSpec
+	// the decoders under test may die on a mis-sized length prefix (allocation of the announced size):
+	// every harness runs in crash-isolating worker processes so that such a death is attributed to its case
 	add := func(name string, bound int, f func(c *enum.Ctx)) {
-		hs = append(hs, fw.HarnessSpec{Harness: enum.Harness{Name: name, Bound: bound, Run: f}})
+		shards := 8
+		if name == "generator-artifacts" || name == "hand-written-types" {
+			shards = 1
+		}
+		hs = append(hs, fw.HarnessSpec{Harness: enum.Harness{Name: name, Bound: bound, Run: func(c *enum.Ctx) {
+			if name != "generator-artifacts" && name != "hand-written-types" {
+				f(c)
+				return
+			}
+			if !c.Dry() {
+				f(c)
+			}
+		}}, Isolated: true, Shards: shards})
 	}
 	e, envErr := loadEnv(seed)
 
@@ -343,6 +357,9 @@ func harnesses(r *fw.Run) []fw.HarnessSpec {
 		if err != nil {
 			c.Fail("binding-shape:"+d.Name, "%v", err)
 			return v, nil, false
+		}
+		if c.Dry() {
+			return v, want, false
 		}
 		got, err := marshalTL(v)
 		if err != nil {
@@ -523,6 +540,9 @@ func harnesses(r *fw.Run) []fw.HarnessSpec {
 				gotQuery = data
 				out := append(rtl.U32(0x0fac8416), id...)
 				return append(out, rtl.Bytes(answer)...)
+			}
+			if c.Dry() {
+				return
 			}
 			rets := m.Call(args)
 			var rerr error
